@@ -30,6 +30,12 @@ def gen_cases(rng, tier):
             if op == 'cirq' and norb > 8:
                 continue
             cases.append({'kind': 'kern', 'norb': norb, 'na': na, 'nb': nb, 'op': op, 'seed': rng.randrange(10 ** 6)})
+    # the low-filling kernels of the dense 1+2-body apply (n_alpha, n_beta < 0.3 norb; selected by FqeData._low_thresh,
+    # which the accelerated path leaves at 0: the kernels are reached by setting it, as the repository's own tests do)
+    low_shapes = [(4, 1, 1), (7, 2, 2), (7, 2, 1), (8, 1, 2)] + ([] if tier == 'quick' else [(5, 1, 1), (11, 3, 1), (11, 3, 3), (7, 0, 2), (10, 2, 2)])
+    for norb, na, nb in low_shapes:
+        for op in ('apply_r2_low', 'apply_g2_low'):
+            cases.append({'kind': 'kern', 'norb': norb, 'na': na, 'nb': nb, 'op': op, 'seed': rng.randrange(10 ** 6)})
     if tier == 'quick':
         cases = [c for c in cases if not (c['op'] in ('apply_r3', 'rdm3') and c['norb'] > 5)]
         # rows / columns longer than one 450-element batch also in the quick tier (column kernels of the orbital
@@ -97,6 +103,17 @@ def run_impl(case, mode):
         h1 = iarr((norb, norb))
         h2 = iarr((norb,) * 4)
         outs.append(w.apply(fqe.get_restricted_hamiltonian((h1, h2))).sector((nele, sz)).coeff)
+    elif op in ('apply_r2_low', 'apply_g2_low'):
+        for key in w.sectors():
+            w.sector(key)._low_thresh = 0.3
+        if op == 'apply_r2_low':
+            ham = fqe.get_restricted_hamiltonian((iarr((norb, norb)), iarr((norb,) * 4)))
+        else:
+            h2 = numpy.zeros((2 * norb,) * 4, dtype=numpy.complex128)
+            for _ in range(60):
+                h2[tuple(rs.randint(0, 2 * norb, size=4))] = rs.randint(-2, 3) + 1j * rs.randint(-2, 3)
+            ham = fqe.get_gso_hamiltonian((iarr((2 * norb, 2 * norb)), h2))
+        outs.append(w.apply(ham).sector((nele, sz)).coeff)
     elif op == 'apply_gso1':
         wb = fqe.get_number_conserving_wavefunction(nele, norb)
         data = {k: iarr(wb.sector(k).coeff.shape) for k in wb.sectors()}
